@@ -579,6 +579,11 @@ class Interp(object):
     def expr_JoinedStr(self, node, st, fr):
         return Opaque('str')
 
+    def expr_Yield(self, node, st, fr):
+        v = self.eval(node.value, st, fr) if node.value is not None else None
+        st.events.append(('yield', v))
+        return None
+
     def expr_Lambda(self, node, st, fr):
         return LambdaVal(node, dict(st.env), fr)
 
@@ -757,10 +762,21 @@ class Interp(object):
                 return r if op == '==' else bnot(r)
         if isinstance(a, ObjRef) and isinstance(b, ObjRef):
             return self.obj_eq(op, a, b, st)
+        if isinstance(a, (ListRef, DictRef)) and isinstance(b, type(a)) and a.addr == b.addr and op in ('==', '!='):
+            return op == '=='
         return npm.elementwise(st, lambda x, y: compare(op, x, y), a, b, kind='bool')
 
     def obj_eq(self, op, a, b, st):
-        raise Unsupported("object comparison")
+        if a.addr == b.addr:
+            return op == '=='
+        ci = self.class_of(a, st)
+        if ci is not None:
+            for c in self.repo.mro(ci):
+                if '__eq__' in c.methods:
+                    r = self.call_repo(c.qualname + '.__eq__', c.methods['__eq__'], c.module, c, [a, b], {}, st, None)
+                    r = self.truth(r, st)
+                    return r if op == '==' else bnot(r)
+        return op != '=='       # default object equality is identity
 
     @staticmethod
     def _streq(op, x, y):
@@ -995,6 +1011,8 @@ class Interp(object):
 
     def obj_getattr(self, ref, attr, st, fr):
         cell = st.heap[ref.addr]
+        if cell.cls == '<file>':
+            return BoundBuiltin(ref, attr)
         ci = self.repo.find_class(cell.cls)
         if ci is not None:
             for c in self.repo.mro(ci):
